@@ -1,5 +1,5 @@
 SPECIFICATION Spec
-CONSTANTS NG = 4 Rounds = 2 Modes = {"w", "r"} LeakOnCancel = FALSE
+CONSTANTS NG = 3 Rounds = 3 Modes = {"w", "r"} LeakOnCancel = FALSE DeafWaiter = FALSE
 INVARIANTS Contract TokenInv RWNeverBlocks
 PROPERTY AllFinish
 CHECK_DEADLOCK FALSE
